@@ -25,6 +25,50 @@ type Path struct {
 	// resOv: results of a path continued through a delegated helper (deepPaths)
 	resOv []*Term
 	via   []*ssa.Function
+	// segs: the helper paths a deep path continues through, each with the
+	// substitution of the helper's parameters into the root function's frame
+	segs []pathSeg
+}
+
+type pathSeg struct {
+	p *Path
+	m map[string]*Term
+}
+
+// instrsDeep iterates the instructions of the path and of the helper paths it
+// continues through; eng evaluates values of that segment, m maps the
+// segment's parameters into the root frame (nil for the root segment).
+func (p *Path) instrsDeep(f func(in ssa.Instruction, eng *termEngine, m map[string]*Term)) {
+	// the delegating calls themselves are represented by the segments
+	expanded := func(in ssa.Instruction) bool {
+		ci, ok := in.(ssa.CallInstruction)
+		if !ok || len(p.segs) == 0 {
+			return false
+		}
+		c := ci.Common().StaticCallee()
+		for _, sg := range p.segs {
+			if c != nil && sg.p.fn == c {
+				return true
+			}
+		}
+		return false
+	}
+	for _, b := range p.blocks {
+		for _, in := range b.Instrs {
+			if !expanded(in) {
+				f(in, p.eng, nil)
+			}
+		}
+	}
+	for _, sg := range p.segs {
+		for _, b := range sg.p.blocks {
+			for _, in := range b.Instrs {
+				if !expanded(in) {
+					f(in, sg.p.eng, sg.m)
+				}
+			}
+		}
+	}
 }
 
 func (p *Path) results() []*Term {
@@ -214,6 +258,14 @@ func (P *Prog) deepPathsD(fn *ssa.Function, depth int, on map[*ssa.Function]bool
 			}
 			np.via = append(append([]*ssa.Function{}, p.via...), h)
 			np.via = append(np.via, q.via...)
+			np.segs = append(append([]pathSeg{}, p.segs...), pathSeg{p: q, m: m})
+			for _, sg := range q.segs {
+				cm := map[string]*Term{}
+				for k, v := range sg.m {
+					cm[k] = v.subst(m)
+				}
+				np.segs = append(np.segs, pathSeg{p: sg.p, m: cm})
+			}
 			if np.feasible() {
 				out = append(out, &np)
 			}
